@@ -252,6 +252,8 @@ def pool_map(fn, items, procs=None, chunksize=1):
                 pool.terminate()
                 raise HarnessError(r)
             out.append(r)
+        pool.close()
+        pool.join()
     return out
 
 
